@@ -4,6 +4,7 @@ import (
 	"fmt"
 	"os"
 	"path/filepath"
+	"strconv"
 	"strings"
 
 	"vh/drv"
@@ -38,6 +39,41 @@ var c17Kinds = []string{"random", "trunc", "mutate", "mutate", "badnumber", "fie
 var badNumbers = []string{"0xffffffffffffffffff", "-5", "zz", "1e9", "0x", "18446744073709551616", "0x1 0x2", "+3", "0b102", "١٢٣", "0x1p3", "99999999999999999999999999"}
 var badHeaders = []string{"nohash", "v1#2#3", "#", "##", "v0.4.8#", "#5", "v0.4.8#-1", "v0.4.8#x", "v0.4.8#18446744073709551616", "v0.4.8 #1", "\x00#1"}
 
+// otherVersions: ways to derive the version string of "another rapid version" from the real one (observed, e.g. v0.4.8)
+var otherVersions = []string{"+x", "+.1", "+.0", "+.", "+.1.2", "+-rc1", "++build5", "+.99999999999999999999", "-v", "bump", "older", "=v0.4.7", "=v0.0.1", "=v1.2.0", "=v1.3.0", "=v10.0.0", "=v0.4", "=v0", "=v", "=0", "=vX.Y.Z", "=v0..8", "=v-1.4.8", "=v0.4.8.", "=v.4.8"}
+
+func otherVersion(version, how string) string {
+	out := version + "x"
+	switch {
+	case strings.HasPrefix(how, "+"):
+		out = version + how[1:]
+	case strings.HasPrefix(how, "="):
+		out = how[1:]
+	case how == "-v":
+		out = strings.TrimPrefix(version, "v")
+	case how == "bump" || how == "older":
+		// last numeric component +1 / -1
+		i := len(version)
+		for i > 0 && version[i-1] >= '0' && version[i-1] <= '9' {
+			i--
+		}
+		if n, err := strconv.Atoi(version[i:]); err == nil {
+			if how == "bump" {
+				n++
+			} else if n > 0 {
+				n--
+			} else {
+				n = 7
+			}
+			out = version[:i] + strconv.Itoa(n)
+		}
+	}
+	if out == version {
+		out = version + "x"
+	}
+	return out
+}
+
 func (c17) Gen(dt *drv.T, c *Ctx) any {
 	cs := &C17Case{Case: &CheckCase{}}
 	pc := ProgCfg{Gen: GenCfg{Depth: 1, SmallInts: true, RejectHeavy: chance(dt, "rej", 30)}, MaxStmts: 3, Repeat: chance(dt, "sm", 20), Skips: true, SigPct: 60}
@@ -71,6 +107,8 @@ func (c17) Gen(dt *drv.T, c *Ctx) any {
 			f.A = drv.IntRange(0, 5).Draw(dt, "ncomments")
 		case "whitespace":
 			f.Data = []byte(pick(dt, "ws", " ", "\n\n", "\t\n ", "\r\n"))
+		case "otherversion":
+			f.Data = []byte(pick(dt, "verhow", otherVersions...))
 		}
 		cs.Files = append(cs.Files, f)
 	}
@@ -105,7 +143,7 @@ func materialize(f FileShape, path, version string, template []byte, seed uint64
 	case "fields":
 		write([]byte("# c\n" + string(f.Data) + "\n0x1\n0x2"))
 	case "otherversion":
-		write([]byte("# c\n" + version + "x#1\n0x0\n0x1"))
+		write([]byte("# c\n" + otherVersion(version, string(f.Data)) + "#1\n0x0\n0x1"))
 	case "empty":
 		write(nil)
 	case "comments":
